@@ -64,7 +64,7 @@ def strategy(tier):
 
 
 def n_random(tier):
-    return 16 if tier == "quick" else 3000
+    return 16 if tier == "quick" else 120
 
 
 # ----------------------------------------------------------------- name emission (runs in origin and receivers)
